@@ -74,6 +74,10 @@ func (rn *runner) lockstep(raw *peer.Raw, name string, tag uint16, v wirecodec.V
 	if f.Name == "Rlerror" {
 		return f, fmt.Errorf("setup: %s answered Rlerror %d", name, wirecodec.U(f.V, "ecode"))
 	}
+	// let the handler goroutine return to the idle pool before the next request arrives: the server
+	// then enters the scripted part with the minimal pool (one receiver, one idle), so that a step
+	// which fails to provide a receiver shows at once instead of being masked by spare goroutines
+	time.Sleep(2 * time.Millisecond)
 	return f, nil
 }
 
